@@ -78,6 +78,15 @@ func ZZ_C02_rounds() {
 	}
 	ds.Spec.Template = tpl("B")
 	datadoghqv1alpha1.DefaultExtendedDaemonSetSpec(&ds.Spec, datadoghqv1alpha1.ExtendedDaemonSetSpecStrategyCanaryValidationModeAuto)
+	// the rolling-update limits may be percentages that come to less than one node on a small cluster:
+	// they round up ("at least one"), so the roll-out still makes progress
+	if nondet.Bool("limitsAsSmallPercentages") {
+		ten := intstr.FromString("10%")
+		ds.Spec.Strategy.RollingUpdate.SlowStartAdditiveIncrease = &ten
+		ds.Spec.Strategy.RollingUpdate.MaxUnavailable = &ten
+		ds.Spec.Strategy.RollingUpdate.MaxParallelPodCreation = nil
+		datadoghqv1alpha1.DefaultExtendedDaemonSetSpec(&ds.Spec, datadoghqv1alpha1.ExtendedDaemonSetSpecStrategyCanaryValidationModeAuto)
+	}
 	hash := func(id string) string {
 		t := tpl(id)
 		h, _ := comparison.GenerateMD5PodTemplateSpec(&t)
